@@ -180,6 +180,8 @@ where
         let bx = boxes[(want_unb.hash() / 13 % 5) as usize];
         let want_in = egmon::target::restrict(want_unb, &bx);
         let mut ib = IterTarget::<C>::new(bx);
+        // (every second one consumes what it receives with for_each instead of a for loop)
+        ib.log_mut().internal_iteration = want_unb.hash() / 5 % 2 == 0;
         let mut sb = NativeTarget::<C>::new(bx);
         sb.log_mut().skip_invisible_with_nth = true;
         let _ = d.draw(&mut ib);
